@@ -180,7 +180,7 @@ def job(cfg):
         yr, lr, gr = SK.autograd_derivative(kind, mode, xr, pr, bxr, inv)
         ys = tm.evaluate(y.t, env, funcs)
         ds = tm.evaluate((y.d or {}).get(0, tm.ZERO), env, funcs)
-        if abs(ys - float(yr[0])) > 1e-7 * max(1, abs(ys)) or abs(ds - float(gr[0])) > 1e-6 * max(1, abs(ds)):
+        if abs(ys - float(yr[0])) > 1e-6 * max(1, abs(ys)) or abs(ds - float(gr[0])) > 1e-6 * max(1, abs(ds)):
             jr["inconclusive"].append({"validation_mismatch": tag, "leaves": lv, "sym": [ys, ds], "real": [float(yr[0]), float(gr[0])]})
         else:
             nval += 1
@@ -240,8 +240,8 @@ def configs(tier):
         for K in Ks:
             for mode, box in (("box", "sym"), ("tails", "sym")):
                 if kind == "quadratic" and mode == "tails" and K == 1:
-                    continue  # the unconstrained quadratic spline needs K-1 >= 1 interior heights
-                cfgs.append({"kind": kind, "K": K, "mode": mode, "box": box, "timeout": 60 if tier == "quick" else 600, "nval": 8})
+                    continue
+                cfgs.append({"kind": kind, "K": K, "mode": mode, "box": box, "timeout": 60 if tier == "quick" else (600 if K < 3 else 300), "nval": 8, "bughunt": K == 3 and kind != "linear"})
     # non-default and mutually different floors (min_bin_width != min_bin_height != min_derivative)
     for kind in ("rq", "quadratic", "cubic"):
         cfgs.append({"kind": kind, "K": 2, "mode": "box", "box": "unit", "floors": True, "timeout": 60 if tier == "quick" else 600, "nval": 8})
